@@ -28,7 +28,7 @@ from gridlib import GridCase
 
 ID = 'C16'
 TECHNIQUE = ('Coq proof over a control-flow model (answer, effects) of the tile / map request paths + correspondence of the '
-             'model with the real WSGI application under a recording upstream and a recording cache')
+             'model with the real WSGI application under a recording upstream and a recording cache; the TILEMATRIX/row/col parsers and the max_tile_limit test are regenerated from the source by the ast translator (Gen_wmts_parse.v, Gen_tile_limit.v)')
 LEVEL_TEXT = ('Theorems for every grid, layer configuration, cache state and request (any integer or non-numeric address '
               'component, any format / dimension value, any bbox / size) over the Gallina model of TileServer.map, KMLServer.map, '
               'WMTSServer.tile/featureinfo (KVP, REST), TileLayer.render, WMSServer.check_map_request, CacheMapLayer.get_map/_image '
